@@ -38,6 +38,17 @@ pub fn cases(ctx: &Ctx) -> Vec<WCase> {
         let d = if ctx.quick() { 1 + ((i * 7) % 300) as i32 } else { 1 + (i % 120) as i32 };
         let who = rr.below(s.peers.len() as u64) as usize;
         s.diverge = Some((who, d));
+        // a third of the scenarios: a one-way hiccup BEFORE the divergence (input packets of one direction held back for a few
+        // frames, then arriving in a burst): a peer's confirmed frame then jumps several frames in one call and its own
+        // reports trail its confirmed frame from then on
+        if rr.chance(0.35) {
+            let (a, b) = (peer_addr(0), peer_addr(1));
+            let (from, to) = if rr.chance(0.5) { (a, b) } else { (b, a) };
+            let mut l = s.link.clone();
+            let at = rr.range(1200, 1200 + (d as u64 * 16).min(3000));
+            l.outages.push(Outage { from_ms: at, to_ms: at + rr.pick(&[50u64, 80, 120, 200]), kinds: 1 << K_INPUT });
+            s.link_overrides.push((from, to, l));
+        }
         out.push(wcase(format!("detect-{i}"), s));
     }
     out
